@@ -281,3 +281,32 @@ _run_l11 = run
 def run(ctx, rep, tier):
     _run_l11(ctx, rep, tier)
     _end_fail_is_final(ctx, rep, tier)
+
+
+# ---------------------------------------------------------------------------------------------------------------- C10.n
+def _gone_target_is_not_terminating(ctx, rep, tier):
+    """C10.n (F-82): a transition whose own target is not part of the machine is a terminating one only if no emitted action may send the machine to a live
+    state. `"a"; loop { break; "x"; } "b";` puts the break on the 'a' transition, whose own target (the dead "x" states) is removed at -O1+: after the break's
+    jump to the skip label nothing was emitted - no advance, no end test, no dispatch - and feed() fell into the state's `return OK` mid-chunk."""
+    from .tbrows import check_leaves_flag
+    rep.rule("C10.n", "a transition with a removed own target still advances and dispatches when one of its emitted actions may leave for another state")
+    has, probs = check_leaves_flag(ctx.model)
+    q = "CodegenCtx._generate_transition_body"
+    rep.check(has, "C10.n", q, "the emitter tracks whether an emitted action may send the machine elsewhere",
+              "a transition whose own target was removed as inaccessible is rendered as terminating even when an action (a break in front of dead code, a conditional break in front "
+              "of a finish) sends the machine to a live state: feed() returns OK without consuming the chunk (`\"a\"; loop { break; \"x\"; } \"b\";` fed \"ab\" at -O1+)")
+    for pr in probs:
+        rep.bad("C10.n", q, "meaning of the may-leave flag", pr)
+    if has and not probs:
+        # the flag is what the continuation tests consult (the rows themselves are C10.a)
+        src = ast.unparse(ctx.model.func(q))
+        rep.check(src.count("transition.target in self.dfa.states or leaves_for_elsewhere") == 2, "C10.n", q, "both continuations (fall-through, consuming) consult it",
+                  "the may-leave flag is not consulted by both the fall-through and the consuming continuation")
+
+
+_run_l12 = run
+
+
+def run(ctx, rep, tier):
+    _run_l12(ctx, rep, tier)
+    _gone_target_is_not_terminating(ctx, rep, tier)
